@@ -3381,21 +3381,29 @@ type NexthopUpdateBody IPRouteBody
 func (b *NexthopUpdateBody) serialize(version uint8, software Software) ([]byte, error) {
 	var buf []byte
 	offset := 0
-	// Message (4 bytes) // if (srte_color) stream_putl(s, message);
-	if version == 6 && software.name == "frr" && software.version >= 7.5 { // since frr7.5
-		buf = make([]byte, 7)
-		binary.BigEndian.PutUint32(buf, uint32(b.Message))
-		offset += 4
-	} else { // until frr7.4
-		buf = make([]byte, 3)
-	}
-
-	// Address Family (2 bytes)
-	binary.BigEndian.PutUint16(buf[offset:], uint16(b.Prefix.Family))
 	addrByteLen, err := addressByteLength(b.Prefix.Family)
 	if err != nil {
 		return nil, err
 	}
+	// Message (4 bytes) // if (srte_color) stream_putl(s, message);
+	if version == 6 && software.name == "frr" && software.version >= 7.5 { // since frr7.5
+		buf = make([]byte, 4)
+		binary.BigEndian.PutUint32(buf, uint32(b.Message))
+		offset += 4
+		if software.version >= 8.2 { // since frr8.2: safi and the prefix of the original request
+			tmpbuf := make([]byte, 5)
+			binary.BigEndian.PutUint16(tmpbuf, uint16(b.Safi))              // stream_putw(s, rnh->safi);
+			binary.BigEndian.PutUint16(tmpbuf[2:], uint16(b.Prefix.Family)) // stream_putw(s, rn->p.family);
+			tmpbuf[4] = byte(addrByteLen * 8)                               // stream_putc(s, rn->p.prefixlen);
+			buf = append(buf, tmpbuf...)
+			buf = append(buf, b.Prefix.Prefix.AsSlice()...)
+			offset = len(buf)
+		}
+	}
+	buf = append(buf, make([]byte, 3)...)
+
+	// Address Family (2 bytes)
+	binary.BigEndian.PutUint16(buf[offset:], uint16(b.Prefix.Family))
 
 	buf[offset+2] = byte(addrByteLen * 8) // stream_putc(s, rn->p.prefixlen);
 	// Prefix Length (1 byte) + Prefix (variable)
